@@ -603,6 +603,27 @@ def gen_C13(tier, seed):
         else:
             p.write(1, route='dict', data_arrays={idx: a2, oth: b2}, fname='w2.dlis')
         progs.append(p.build())
+    # NaN in the index of an earlier write; the user pinning a value equal to the one derived before
+    for i in range(6 if tier == 'quick' else 40):
+        p = Prog(f'C13-rewrite2-{i}', {'kind': 'rewrite2'})
+        lf, _ = base_lf(p)
+        idx = p.channel(lf, 'INDEX')
+        oth = p.channel(lf, 'OTHER')
+        fr = p.frame(lf, 'FR', [idx, oth], index_type=EN('FrameIndexType', 'BOREHOLE_DEPTH'))
+        full = np.array([1000, 1001, 1002, 1003, 1004, 1005], dtype='float64')
+        a1 = p.array(full if i % 2 else np.array([1.0, float('nan'), 3.0, 4.0, 5.0, 6.0]))
+        a2 = p.array(np.array([20, 21, 22, 23, 24, 25], dtype='float64') if i % 2 == 0 else full)
+        b = p.array(rand_array(rng, 'int16', 6))
+        p.write(1, route='dict', data_arrays={idx: a1, oth: b}, fname='w1.dlis')
+        if i % 2:      # pin the whole-log range (= what the first write derived), then write a window
+            p.set(fr, 'index_min', F(1000.0))
+            p.set(fr, 'index_max', F(1005.0))
+            if i % 4 == 1:
+                p.set(fr, 'spacing', F(1.0))
+            p.write(1, route='dict', data_arrays={idx: a2, oth: b}, fname='w2.dlis', **{'from': 2, 'to': 5})
+        else:
+            p.write(1, route='dict', data_arrays={idx: a2, oth: b}, fname='w2.dlis')
+        progs.append(p.build())
     return progs
 
 
@@ -618,7 +639,12 @@ def gen_C18(tier, seed):
         nlf = rng.choice([1, 2, 2, 3])
         setmode = rng.choice(['distinct', 'distinct', 'default', 'partial']) if nlf > 1 else 'default'
         p.file(1, vrl=rng.choice([128, 8192]))
-        lfs = [p.lf(1, fh_id=f'LF-NUMBER-{k + 1}', fh_seq=k + 1) for k in range(nlf)]
+        seqs = list(range(1, nlf + 1))
+        if i % 3 == 1:
+            seqs = seqs[::-1]                       # header sequence numbers need not follow the creation order
+        elif i % 3 == 2:
+            seqs = [rng.choice([1, 2, 7, 40]) for _ in range(nlf)]
+        lfs = [p.lf(1, fh_id=f'LF-NUMBER-{k + 1}', fh_seq=seqs[k]) for k in range(nlf)]
         plan = []      # interleave add_* calls between logical files
         per = {}
         for k, lf in enumerate(lfs):
